@@ -626,8 +626,8 @@ def run(ctx):
         hm = _hist.histories(3, 6)
         mbound = "connected DAGs (2-3 revisions) x 6 tree states (0-5)"
     else:
-        hs = _hist.histories(3, 5, state_ids=(1, 2, 3, 4, 5))
-        bound = "connected DAGs <= 3 revisions x 5 tree states (1-5)"
+        hs = _hist.histories(2, 5, state_ids=(1, 2, 3, 4, 5)) + _hist.histories(3, 4, min_n=3, state_ids=(1, 2, 3, 4))
+        bound = "connected DAGs <= 2 revisions x 5 tree states (1-5), 3 revisions x 4 tree states (1-4)"
         hm = _hist.histories(3, 3, state_ids=(1, 3, 4))
         mbound = "connected DAGs (2-3 revisions) x 3 tree states (1, 3, 4)"
     hm = [h for h in hm if len(h[0]) >= 2]
